@@ -1,7 +1,7 @@
 (* C04 — external product GLWE x GGSW and CMux: phase theorems on the model Gadget.gadget_product / cmux.
    C04_external_product_phase_lemma  (3c) phase(res) = m2 (x) phase'(ct) + E + 2^P Iq
    C04_ggsw_cells                    the GGSW-cell hypothesis as a Definition; C04_ggsw_cells_satisfiable: a concrete instance
-   gadget_product_spec_clean         the product started from an un-zeroed accumulator (cmux)
+   gadget_product_spec_any_acc       the product from ANY prior accumulator content of the right shape (the repaired code zeroes it)
    C04_cmux_phase_lemma / C04_cmux_selects_lemma   cmux before its final normalisation *)
 From PV Require Import Base.MachineInt Model.Znx Model.Limbs Model.Flat Model.Ring Model.Poly Model.DftAbs Model.Gadget Model.GadgetSpec Proofs.C07Dft Proofs.C07Ring Proofs.GadgetDecomp Proofs.GadgetPhase Proofs.C03Phase.
 Open Scope Z_scope.
@@ -17,11 +17,13 @@ Definition C04_ggsw_cells (P b : Z) (n rank msize dsize dnum : nat) (K : pmat) (
 Section C04.
 Variables (P b : Z) (n rank msize a_size dsize dnum : nat) (clamp : bool).
 Variable a : cols_t.                       (* all rank+1 columns of the input GLWE (GGSW radix) *)
+Variable res0 : cols_t.                    (* prior content of the accumulator: only its shape matters *)
 Variable K : pmat.
 Variable Sk : nat -> list Z.
 Variable m2 : list Z.
 Variables (e I : nat -> nat -> list Z).
 Hypothesis Ha : wf_cols n (S rank) a_size a.
+Hypothesis Hres0 : acc_shape (S rank) msize clamp res0.
 Hypothesis HK : wf_pmat_in n (dnum * S rank) (msize * S rank) K.
 Hypothesis Hd : (1 <= dsize)%nat.
 Hypothesis Hdrop : (dsize - 2 <= msize)%nat.
@@ -47,14 +49,14 @@ Qed.
 
 (* (3c) phase(res) = m2 (x) phase'(ct) + E + 2^P Iq ; phase' = phase of the limbs l < min(a_size, dnum*dsize) *)
 Theorem C04_external_product_phase_lemma :
-  exists res, gadget_product n (S rank) msize (zcols n (S rank) msize) a a_size dsize dnum msize clamp K = Some res /\
+  exists res, gadget_product n (S rank) msize res0 a a_size dsize dnum msize clamp K = Some res /\
     wf_cols n (S rank) msize res /\
     phase_f P b n (S rank) msize (limbs_of res) Sk
     = padd (padd (pmul m2 (phase_f P b n (S rank) (Nat.min a_size (dnum * dsize)) (acol n a) Sk))
                  (gadget_err P b n (S rank) (S rank) msize dsize dnum (acol n a) K Sk e))
            (pscale (2 ^ P) (gadget_int b n (S rank) (S rank) msize dsize dnum (acol n a) K Sk I)).
 Proof.
-  destruct (gadget_product_spec n (S rank) (S rank) msize a_size dsize dnum clamp a K Ha Hd Hdrop) as [res [E1 [E2 E3]]].
+  destruct (gadget_product_spec n (S rank) (S rank) msize a_size dsize dnum clamp a K res0 Ha Hd Hdrop Hres0) as [res [E1 [E2 E3]]].
   exists res. split; [exact E1|]. split; [exact E2|].
   rewrite (phase_f_ext P b n (S rank) msize (limbs_of res)
              (gp_spec n (S rank) (S rank) msize a_size dsize dnum clamp (acol n a) K) Sk) by (intros; apply E3; assumption).
@@ -205,46 +207,18 @@ Qed.
 End ColSub.
 
 
-Section Clean.
-Variables (n cin cols_out msize a_size dsize dnum : nat) (clamp : bool).
-Variable a : cols_t.
-Variable m : pmat.
-Variable res0 : cols_t.
-Hypothesis Ha : wf_cols n cin a_size a.
-Hypothesis Hd : (1 <= dsize)%nat.
-Hypothesis Hdrop : (dsize - 2 <= msize)%nat.
-Hypothesis Hres0 : wf_cols n cols_out msize res0.
-Hypothesis Hclean : res0_clean n cols_out msize dsize res0.
-
-Theorem gadget_product_spec_clean :
-  exists res, gadget_product n cols_out msize res0 a a_size dsize dnum msize clamp m = Some res /\
+(* the product in external-product mode from ANY accumulator content of the right shape: the repaired code zeroes the first msize
+   limbs (Gadget.acc_start), so the result does not depend on what the scratch space held *)
+Section AnyAcc.
+Theorem gadget_product_spec_any_acc n cin cols_out msize a_size dsize dnum (a : cols_t) (m : pmat) (res0 : cols_t) :
+  wf_cols n cin a_size a -> (1 <= dsize)%nat -> (dsize - 2 <= msize)%nat ->
+  length res0 = cols_out -> (forall co, (co < cols_out)%nat -> length (col res0 co) = msize) ->
+  exists res, gadget_product n cols_out msize res0 a a_size dsize dnum msize false m = Some res /\
     wf_cols n cols_out msize res /\
     forall co j, (co < cols_out)%nat -> (j < msize)%nat ->
-      lim (col res co) j = gp_spec n cin cols_out msize a_size dsize dnum clamp (acol n a) m co j.
-Proof.
-  assert (LG : forall co j, length (gp_spec n cin cols_out msize a_size dsize dnum clamp (acol n a) m co j) = n)
-    by (intros; apply gp_spec_length; exact Ha).
-  assert (Fin : forall res, length res = cols_out ->
-     (forall co, (co < cols_out)%nat -> length (col res co) = msize /\
-        forall j, (j < msize)%nat -> lim (col res co) j = gp_spec n cin cols_out msize a_size dsize dnum clamp (acol n a) m co j) ->
-     wf_cols n cols_out msize res /\
-     forall co j, (co < cols_out)%nat -> (j < msize)%nat ->
-       lim (col res co) j = gp_spec n cin cols_out msize a_size dsize dnum clamp (acol n a) m co j).
-  { intros res E2 E3. split.
-    - split; [exact E2|]. intros co Hc. destruct (E3 co Hc) as [E4 E5]. split; [exact E4|].
-      intros j Hj. rewrite E5 by exact Hj. apply LG.
-    - intros co j Hc Hj. apply E3; assumption. }
-  destruct (Nat.eq_dec dsize 1) as [E|E].
-  - destruct (flat_case n cin cols_out msize a_size dnum clamp a m Ha dsize msize res0 E (Nat.le_refl msize)) as [res [E1 [E2 E3]]].
-    exists res. split; [exact E1|]. apply Fin; assumption.
-  - destruct (gadget_product_spec_grouped n cin cols_out msize a_size dsize dnum clamp a m Ha msize res0
-                Hres0 Hdrop (Nat.le_refl msize) ltac:(lia)) as [res [E1 [E2 E3]]].
-    exists res. split; [exact E1|]. apply Fin; [exact E2|].
-    intros co Hc. destruct (E3 co Hc) as [E4 E5]. split; [exact E4|].
-    intros j Hj. rewrite (E5 j Hj).
-    destruct (Nat.ltb_spec j (sz_r msize dsize 0)); [|rewrite Hclean by assumption]; apply padd_pzero_l, LG.
-Qed.
-End Clean.
+      lim (col res co) j = gp_spec n cin cols_out msize a_size dsize dnum false (acol n a) m co j.
+Proof. intros Ha Hd Hdrop Hl Hc. apply gadget_product_spec; try assumption. right. split; assumption. Qed.
+End AnyAcc.
 
 Section Cmux.
 Variables (be : Z) (P b : Z) (n rank res_size t_size f_size dsize dnum msize : nat).
@@ -259,8 +233,8 @@ Let L1 : nat := Nat.min res_size (dnum * dsize).
 Hypothesis Hn : (1 <= n)%nat.
 Hypothesis Ht : wf_cols n (S rank) t_size t.
 Hypothesis Hf : wf_cols n (S rank) f_size f.
-Hypothesis Hres0 : wf_cols n (S rank) msize res0.
-Hypothesis Hclean : res0_clean n (S rank) msize dsize res0.
+Hypothesis Hres0 : length res0 = S rank.
+Hypothesis Hres0c : forall co, (co < S rank)%nat -> length (col res0 co) = msize.
 Hypothesis HK : wf_pmat_in n (dnum * S rank) (msize * S rank) K.
 Hypothesis Hd : (1 <= dsize)%nat.
 Hypothesis Hdrop : (dsize - 2 <= msize)%nat.
@@ -297,7 +271,7 @@ Theorem C04_cmux_phase_lemma :
     = padd (padd (padd (pscale bit (psub PT1 PF1)) PF2) E) (pscale (2 ^ P) Iq).
 Proof.
   pose proof (cmux_d_wf n (S rank) res_size t_size f_size t f Ht Hf) as Hdw. fold d in Hdw.
-  destruct (gadget_product_spec_clean n (S rank) (S rank) msize res_size dsize dnum false d K res0 Hdw Hd Hdrop Hres0 Hclean)
+  destruct (gadget_product_spec_any_acc n (S rank) (S rank) msize res_size dsize dnum d K res0 Hdw Hd Hdrop Hres0 Hres0c)
     as [big [E1 [E2 E3]]].
   exists big. split; [exact E1|]. split; [unfold cmux; fold d; rewrite E1; reflexivity|].
   pose proof (acol_length n (S rank) f_size f Hf) as LF. pose proof (acol_zero n (S rank) f_size f Hf) as ZF.
@@ -378,6 +352,7 @@ End Cmux.
 Section C04PhaseVal.
 Variables (P b : Z) (n msize a_size dsize dnum : nat) (clamp : bool).
 Variable a : cols_t.
+Variable res0 : cols_t.
 Variable K : pmat.
 Variable sk : list (list Z).
 Variable m2 : list Z.
@@ -385,6 +360,7 @@ Variables (e I : nat -> nat -> list Z).
 Let rank := length sk.
 Let Sk := sk_ext n sk.
 Hypothesis Ha : wf_cols n (S rank) a_size a.
+Hypothesis Hres0 : acc_shape (S rank) msize clamp res0.
 Hypothesis HK : wf_pmat_in n (dnum * S rank) (msize * S rank) K.
 Hypothesis Hn : (1 <= n)%nat.
 Hypothesis Hd : (1 <= dsize)%nat.
@@ -400,15 +376,15 @@ Hypothesis HP2 : Z.of_nat dnum * Z.of_nat dsize * b <= P.
 Hypothesis ggsw_cells : C04_ggsw_cells P b n rank msize dsize dnum K sk m2 e I.
 
 Theorem C04_external_product_phase_val_lemma :
-  exists res, gadget_product n (S rank) msize (zcols n (S rank) msize) a a_size dsize dnum msize clamp K = Some res /\
+  exists res, gadget_product n (S rank) msize res0 a a_size dsize dnum msize clamp K = Some res /\
     phase_val P b n sk res
     = padd (padd (pmul m2 (phase_val P b n sk a))
                  (gadget_err P b n (S rank) (S rank) msize dsize dnum (acol n a) K Sk e))
            (pscale (2 ^ P) (gadget_int b n (S rank) (S rank) msize dsize dnum (acol n a) K Sk I)).
 Proof.
   pose proof (sk_ext_length n sk Hn Hsk) as HS.
-  destruct (C04_external_product_phase_lemma P b n rank msize a_size dsize dnum clamp a K Sk m2 e I
-              Ha HK Hd Hdrop HS Hm2 He HI Hb HP HP2 ggsw_cells) as [res [E1 [E2 E3]]].
+  destruct (C04_external_product_phase_lemma P b n rank msize a_size dsize dnum clamp a res0 K Sk m2 e I
+              Ha Hres0 HK Hd Hdrop HS Hm2 He HI Hb HP HP2 ggsw_cells) as [res [E1 [E2 E3]]].
   exists res. split; [exact E1|].
   assert (Hnth : forall i, (i < length sk)%nat -> length (nth i sk (pzero n)) = n) by (intros; apply Hsk, nth_In; assumption).
   rewrite (phase_val_phase_f P b n sk res msize Hn E2 Hnth).
@@ -472,13 +448,12 @@ Proof. eexists. split; vm_compute; reflexivity. Qed.
 
 (* cmux with bit = 1 on the same shapes: t = ex4_ct, f = ex4_f, GGSW of the constant polynomial 1 *)
 Lemma C04_cmux_hypotheses_satisfiable_lemma :
-  (1 <= 2)%nat /\ wf_cols 2 2 2 ex4_ct /\ wf_cols 2 2 2 ex4_f /\ wf_cols 2 2 2 (zcols 2 2 2) /\ res0_clean 2 2 2 1 (zcols 2 2 2) /\
+  (1 <= 2)%nat /\ wf_cols 2 2 2 ex4_ct /\ wf_cols 2 2 2 ex4_f /\ length (zcols 2 2 2) = 2%nat /\ (forall co, (co < 2)%nat -> length (col (zcols 2 2 2) co) = 2%nat) /\
   wf_pmat_in 2 (2 * 2) (2 * 2) (ex4_K (pscale 1 (pone 2))) /\
   key_rows_ok 8 4 2 2 2 2 1 2 (ex4_K (pscale 1 (pone 2))) (sk_ext 2 ex4_sk) (fun ci => pmul (pscale 1 (pone 2)) (sk_ext 2 ex4_sk ci)) ex4_zero ex4_zero /\
   (1 = 0 \/ 1 = 1) /\ (1 = 1 -> (2 <= Nat.min 2 (2 * 1))%nat /\ (2 <= 2)%nat).
 Proof.
   repeat match goal with |- _ /\ _ => split end; try lia; try (apply ex4_wf_cols; auto).
-  - intros co j _ H1 H2. unfold sz_r in H1. cbn in H1. lia.
   - apply ex4_K_wf; reflexivity.
   - ex4_cells_tac.
 
